@@ -180,6 +180,7 @@ type CaseSet struct {
 	Prelude string   // extra Coq definitions (optional)
 	InType  string   // Coq type of the input component
 	Fun     string   // Coq term : InType -> val
+	PerShard int     // cases per .v shard (0: the -per-shard flag)
 	Cases   []string // "(input, obs)"
 	Descs   []string // human-readable description per case (for replays)
 }
@@ -199,6 +200,9 @@ type ShardInfo struct {
 // Write splits the cases into shards of at most perShard cases.
 func (cs *CaseSet) Write(dir string, perShard int) ([]ShardInfo, error) {
 	var infos []ShardInfo
+	if cs.PerShard > 0 {
+		perShard = cs.PerShard
+	}
 	if perShard <= 0 {
 		perShard = 250
 	}
